@@ -30,6 +30,8 @@ def conv(ctx):
         import yowsup.layers.protocol_messages.proto.e2e_pb2 as e2e
         import yowsup.layers.protocol_messages.proto.protocol_pb2 as proto
         C.Message = protostub.stub_class(e2e.Message.DESCRIPTOR)
+        import yowsup.layers.protocol_messages.protocolentities.protomessage as PM
+        PM.Message = C.Message
         C.ContextInfo = protostub.stub_class(e2e.ContextInfo.DESCRIPTOR)
         C.MessageKey = protostub.stub_class(proto.MessageKey.DESCRIPTOR)
     return C, C.AttributesConverter()
@@ -193,6 +195,88 @@ def h_roundtrip(ctx, kind, which, depth):
     return obs
 
 
+def proto_obs(prefix, a, b):
+    """two protobuf messages (stub or real) carry the same fields with the same values"""
+    from google.protobuf.descriptor import FieldDescriptor as FD
+    obs = []
+    for f in a.DESCRIPTOR.fields:
+        if f.label == FD.LABEL_REPEATED:
+            xa, xb = list(getattr(a, f.name)), list(getattr(b, f.name))
+            if len(xa) != len(xb):
+                obs.append(("%s.%s: same number of elements (%d vs %d)" % (prefix, f.name, len(xa), len(xb)), False))
+            else:
+                for i, (x, y) in enumerate(zip(xa, xb)):
+                    obs.append(("%s.%s[%d]" % (prefix, f.name, i), val_eq(x, y)))
+            continue
+        ha, hb = a.HasField(f.name), b.HasField(f.name)
+        if ha and not hb:
+            obs.append(("%s.%s: lost" % (prefix, f.name), False))
+        elif ha or hb:
+            # a field that was absent may come back explicitly set to its default value (readers see the same value); anything else is a change
+            if f.type == FD.TYPE_MESSAGE:
+                obs += proto_obs(prefix + "." + f.name, getattr(a, f.name), getattr(b, f.name))
+            else:
+                obs.append(("%s.%s" % (prefix, f.name), val_eq(getattr(a, f.name), getattr(b, f.name))))
+    return obs
+
+
+def h_peer_payload(ctx, kind, which, depth):
+    """a payload as a peer client sends it (fields under the schema's names, built by the independent reference mapping) is parsed and
+    re-serialised by the library without losing or changing any field the library models"""
+    from ref import e2e_ref
+    C, c = conv(ctx)
+    v = V(ctx)
+    model = build(ctx, v, kind, which, depth)
+    if H.sym(ctx):
+        P = e2e_ref.message(C.Message(), model)
+        wire = P.SerializeToString()
+    else:
+        import yowsup.layers.protocol_messages.proto.e2e_pb2 as e2e
+        P = e2e_ref.message(e2e.Message(), model)
+        wire = P.SerializeToString()
+    got = c.protobytes_to_message(wire)
+    Q = C.Message() if H.sym(ctx) else e2e.Message()
+    Q.ParseFromString(c.message_to_protobytes(got))
+    return attrs_obs("parsed:" + kind, model, got) + proto_obs("re-serialised:" + kind, P, Q)
+
+
+def h_roundtrip_with_skdm(ctx, kind):
+    """the first message to a group member carries the sender key next to the content: both survive"""
+    C, c = conv(ctx)
+    v = V(ctx)
+    A = attr_mods()
+    sent = build(ctx, v, kind, "none", 0)
+    sent.sender_key_distribution_message = A["skdm"](v.s("group", True), v.b("skdm"))
+    got = c.protobytes_to_message(c.message_to_protobytes(sent))
+    return attrs_obs(kind + "+sender_key_distribution", sent, got)
+
+
+def h_entity_reserialise(ctx, kind):
+    """entity level (protomessage.py): the application changes the content of an entity it has already serialised once
+    (forwarding a received message with a new text, a retry with an edited caption): the next stanza carries the new content"""
+    C, c = conv(ctx)
+    v = V(ctx)
+    C.AttributesConverter._AttributesConverter__instance = c if hasattr(C.AttributesConverter, "_AttributesConverter__instance") else None
+    from yowsup.layers.protocol_messages.protocolentities.message_text import TextMessageProtocolEntity
+    from yowsup.layers.protocol_messages.protocolentities.message_extendedtext import ExtendedTextMessageProtocolEntity
+    from yowsup.layers.protocol_messages.protocolentities.attributes.attributes_message_meta import MessageMetaAttributes
+    s1, s2 = v.s("first", True), v.s("second", True)
+    if kind == "text":
+        e = TextMessageProtocolEntity(s1, to="4915901234567@s.whatsapp.net")
+        first = e.toProtocolTreeNode()
+        e.conversation = s2
+        back = TextMessageProtocolEntity.fromProtocolTreeNode(e.toProtocolTreeNode())
+        return [("re-serialised entity carries the new text", val_eq(back.conversation, s2)),
+                ("first stanza carried the first text", val_eq(TextMessageProtocolEntity.fromProtocolTreeNode(first).conversation, s1))]
+    A = attr_mods()
+    e = ExtendedTextMessageProtocolEntity(A["ext"](s1, None, None, None, None, None, None), MessageMetaAttributes(recipient="4915901234567@s.whatsapp.net"))
+    first = e.toProtocolTreeNode()
+    e.text = s2
+    back = ExtendedTextMessageProtocolEntity.fromProtocolTreeNode(e.toProtocolTreeNode())
+    return [("re-serialised entity carries the new text", val_eq(back.text, s2)),
+            ("first stanza carried the first text", val_eq(ExtendedTextMessageProtocolEntity.fromProtocolTreeNode(first).text, s1))]
+
+
 def h_stub_vs_real(ctx):
     """the stub behaves like the real protobuf runtime on the operations the converter uses (concrete values)"""
     from sx import protostub
@@ -267,11 +351,15 @@ def finding_key(case, label, values, where):
 def cases(tier):
     q = tier == "quick"
     cs = [dict(name="stub-vs-real-protobuf", fn=h_stub_vs_real)]
+    cs += [dict(name="entity[%s,changed after first serialisation]" % k, fn=h_entity_reserialise, args=(k,)) for k in ("text", "extended_text")]
     for kind, opts in sorted(OPTIONALS.items()):
         fams = ["none", "all"] + opts
         for w in fams:
             depth = 2 if (w in ("all", "context_info") and q) else (3 if w in ("all", "context_info") else 0)
             cs.append(dict(name="rt[%s,%s]" % (kind, w), fn=h_roundtrip, args=(kind, w, depth), timeout_s=300, max_paths=5000))
+            cs.append(dict(name="peer[%s,%s]" % (kind, w), fn=h_peer_payload, args=(kind, w, depth), timeout_s=300, max_paths=5000))
+        if kind != "sender_key_distribution":
+            cs.append(dict(name="rt[%s,+sender_key_distribution]" % kind, fn=h_roundtrip_with_skdm, args=(kind,), timeout_s=300, max_paths=5000))
         if not q:
             for i in range(len(opts)):
                 for j in range(i + 1, len(opts)):
